@@ -110,12 +110,140 @@ fn guarded_free(p: *mut u8, l: Layout) {
     }
 }
 
+fn guard_on() -> bool {
+    matches!(GUARD_MODE.load(Ordering::Relaxed), 1 | 2)
+}
+
+// ---- recycle mode (GUARD_MODE == 3): eager reuse of freed blocks
+/// Freed blocks of 16 bytes to 1 MiB are parked in a table instead of going back to the system
+/// allocator, and the next allocation of the same size and alignment gets the most recently
+/// freed one. For correct code this is invisible. For code that keeps a pointer to storage it no
+/// longer owns (a dangling `Vec` left behind by an error path, a buffer returned to a pool by a
+/// `Drop` while something still points at it) it makes the consequence as visible as it can be
+/// without a crash: the stale owner's writes land in whatever *living* object got the block next
+/// - which the retention invariant I2 then reports -, a second free of a parked block is counted
+/// instead of aborting inside malloc, and a parked block whose free-pattern was disturbed is
+/// counted as a write after free. The last two are I1 (C07).
+pub static RECYCLED_BLOCKS: AtomicU64 = AtomicU64::new(0);
+pub static DOUBLE_FREES: AtomicU64 = AtomicU64::new(0);
+pub static WRITES_AFTER_FREE: AtomicU64 = AtomicU64::new(0);
+const RB: usize = 64;
+const RE: usize = 16;
+#[derive(Clone, Copy)]
+struct Parked {
+    ptr: usize,
+    size: usize,
+    align: usize,
+    /// byte the block was filled with when parked (0 = not filled)
+    fill: u8,
+}
+const NOPARK: Parked = Parked { ptr: 0, size: 0, align: 0, fill: 0 };
+struct Table {
+    e: [[Parked; RE]; RB],
+    n: [usize; RB],
+}
+static RLOCK: std::sync::atomic::AtomicBool = std::sync::atomic::AtomicBool::new(false);
+static mut RTABLE: Table = Table { e: [[NOPARK; RE]; RB], n: [0; RB] };
+
+fn recycle_on() -> bool {
+    GUARD_MODE.load(Ordering::Relaxed) == 3
+}
+fn recyclable(l: Layout) -> bool {
+    l.size() >= 16 && l.size() <= (1 << 20)
+}
+fn bucket(l: Layout) -> usize {
+    (l.size().wrapping_mul(0x9e37_79b9) >> 7 ^ l.align()) % RB
+}
+/// Runs `f` on the table under the spin lock. `f` must not allocate.
+fn with_table<R>(f: impl FnOnce(&mut Table) -> R) -> R {
+    while RLOCK.compare_exchange_weak(false, true, Ordering::Acquire, Ordering::Relaxed).is_err() {
+        std::hint::spin_loop();
+    }
+    // SAFETY: RTABLE is only ever touched here, under RLOCK
+    let r = f(unsafe { &mut *std::ptr::addr_of_mut!(RTABLE) });
+    RLOCK.store(false, Ordering::Release);
+    r
+}
+/// most recently parked block of exactly this layout, if any
+fn recycle_take(l: Layout) -> Option<Parked> {
+    let b = bucket(l);
+    with_table(|t| {
+        let n = t.n[b];
+        for i in (0..n).rev() {
+            if t.e[b][i].size == l.size() && t.e[b][i].align == l.align() {
+                let hit = t.e[b][i];
+                for j in i..n - 1 {
+                    t.e[b][j] = t.e[b][j + 1];
+                }
+                t.n[b] = n - 1;
+                return Some(hit);
+            }
+        }
+        None
+    })
+}
+enum ParkResult {
+    Parked(Option<Parked>),
+    DoubleFree,
+}
+fn recycle_park(p: *mut u8, l: Layout, fill: u8) -> ParkResult {
+    let b = bucket(l);
+    with_table(|t| {
+        // a block that is parked already is being freed a second time
+        for bb in 0..RB {
+            for i in 0..t.n[bb] {
+                if t.e[bb][i].ptr == p as usize {
+                    return ParkResult::DoubleFree;
+                }
+            }
+        }
+        let mut evicted = None;
+        if t.n[b] == RE {
+            evicted = Some(t.e[b][0]);
+            for j in 0..RE - 1 {
+                t.e[b][j] = t.e[b][j + 1];
+            }
+            t.n[b] = RE - 1;
+        }
+        t.e[b][t.n[b]] = Parked { ptr: p as usize, size: l.size(), align: l.align(), fill };
+        t.n[b] += 1;
+        ParkResult::Parked(evicted)
+    })
+}
+/// Gives every parked block back to the system allocator (end of a run).
+pub fn recycle_flush() {
+    loop {
+        let next = with_table(|t| {
+            for b in 0..RB {
+                if t.n[b] > 0 {
+                    t.n[b] -= 1;
+                    return Some(t.e[b][t.n[b]]);
+                }
+            }
+            None
+        });
+        match next {
+            // SAFETY: a parked block is a live System allocation of exactly this layout
+            Some(k) => unsafe { System.dealloc(k.ptr as *mut u8, Layout::from_size_align_unchecked(k.size, k.align)) },
+            None => break,
+        }
+    }
+}
+/// checks the free-pattern of a block coming out of the table
+unsafe fn recycled_block_intact(k: Parked) -> bool {
+    if k.fill == 0 {
+        return true;
+    }
+    let s = std::slice::from_raw_parts(k.ptr as *const u8, k.size);
+    s.iter().all(|b| *b == k.fill)
+}
+
 pub struct FillAlloc;
 // SAFETY: forwards to `System`; additionally writes into blocks it has just obtained from, or is
 // about to return to, `System` — memory this allocator owns at that moment.
 unsafe impl GlobalAlloc for FillAlloc {
     unsafe fn alloc(&self, l: Layout) -> *mut u8 {
-        if l.size() >= GUARD_MIN && GUARD_MODE.load(Ordering::Relaxed) != 0 {
+        if l.size() >= GUARD_MIN && guard_on() {
             let p = guarded_alloc(l);
             if !p.is_null() {
                 let f = HEAP_FILL.load(Ordering::Relaxed);
@@ -123,6 +251,19 @@ unsafe impl GlobalAlloc for FillAlloc {
                     std::ptr::write_bytes(p, f, l.size());
                 }
                 return p;
+            }
+        }
+        if recycle_on() && recyclable(l) {
+            if let Some(k) = recycle_take(l) {
+                if !recycled_block_intact(k) {
+                    WRITES_AFTER_FREE.fetch_add(1, Ordering::Relaxed);
+                }
+                RECYCLED_BLOCKS.fetch_add(1, Ordering::Relaxed);
+                let f = HEAP_FILL.load(Ordering::Relaxed);
+                if f != 0 {
+                    std::ptr::write_bytes(k.ptr as *mut u8, f, l.size());
+                }
+                return k.ptr as *mut u8;
             }
         }
         let p = System.alloc(l);
@@ -134,10 +275,20 @@ unsafe impl GlobalAlloc for FillAlloc {
         p
     }
     unsafe fn alloc_zeroed(&self, l: Layout) -> *mut u8 {
-        if l.size() >= GUARD_MIN && GUARD_MODE.load(Ordering::Relaxed) != 0 {
+        if l.size() >= GUARD_MIN && guard_on() {
             let p = guarded_alloc(l);
             if !p.is_null() {
                 return p; // fresh anonymous pages are zero
+            }
+        }
+        if recycle_on() && recyclable(l) {
+            if let Some(k) = recycle_take(l) {
+                if !recycled_block_intact(k) {
+                    WRITES_AFTER_FREE.fetch_add(1, Ordering::Relaxed);
+                }
+                RECYCLED_BLOCKS.fetch_add(1, Ordering::Relaxed);
+                std::ptr::write_bytes(k.ptr as *mut u8, 0, l.size());
+                return k.ptr as *mut u8;
             }
         }
         System.alloc_zeroed(l)
@@ -148,6 +299,25 @@ unsafe impl GlobalAlloc for FillAlloc {
             return;
         }
         let f = HEAP_FILL.load(Ordering::Relaxed);
+        if recycle_on() && recyclable(l) {
+            // pattern first, table second: once the block is in the table another thread may
+            // take it at any moment
+            let fill = if f != 0 { !f } else { 0 };
+            if fill != 0 {
+                std::ptr::write_bytes(p, fill, l.size());
+            }
+            match recycle_park(p, l, fill) {
+                ParkResult::DoubleFree => {
+                    DOUBLE_FREES.fetch_add(1, Ordering::Relaxed);
+                }
+                ParkResult::Parked(evicted) => {
+                    if let Some(k) = evicted {
+                        System.dealloc(k.ptr as *mut u8, Layout::from_size_align_unchecked(k.size, k.align));
+                    }
+                }
+            }
+            return;
+        }
         if f != 0 {
             std::ptr::write_bytes(p, !f, l.size());
         }
@@ -155,7 +325,7 @@ unsafe impl GlobalAlloc for FillAlloc {
     }
     unsafe fn realloc(&self, p: *mut u8, l: Layout, new_size: usize) -> *mut u8 {
         let f = HEAP_FILL.load(Ordering::Relaxed);
-        if f == 0 && !in_arena(p) && !(new_size >= GUARD_MIN && GUARD_MODE.load(Ordering::Relaxed) != 0) {
+        if f == 0 && !in_arena(p) && !(new_size >= GUARD_MIN && guard_on()) && !recycle_on() {
             return System.realloc(p, l, new_size);
         }
         // move always, so that the old block is poisoned and the grown tail is filled
